@@ -94,6 +94,15 @@ theorem C08_ssz_dynamic_list_roundtrip (items : List (List Nat)) (hn : items.len
       simp only [List.flatten_cons, List.length_append, List.length_cons]; omega
   exact ⟨decodeDynamicLength_enc items 13 hn (by omega), unmarshalDynamic_enc items 65536 hM (by omega)⟩
 
+/-- the whole `qbft.Message` (three offsets, identifier, two dynamic justification lists): every message within the limits of the
+    generated code decodes back from its encoding -/
+theorem C08_ssz_QbftMessage_roundtrip (m : QMsg) (h : m.WF) : decodeQMsg (encodeQMsg m) = .ok m := decode_encodeQMsg h
+
+/-- non-vacuity: a message with an identifier, one round-change justification and two prepare justifications is well-formed -/
+example : ({ msgType := 1, height := 2, round := 3, identifier := [7, 7], root := List.replicate 32 9, dataRound := 0,
+             rcj := [[1, 2, 3]], pj := [[5], [6, 6]] } : QMsg).WF :=
+  ⟨by decide, by decide, by decide, by decide, ⟨by decide, by decide, by decide, by decide, by decide, by decide⟩⟩
+
 /-- non-vacuity of the well-formedness predicate: a message with two partial signatures -/
 example : (⟨⟨1, 7, [⟨List.replicate 96 5, List.replicate 32 6, 3⟩, ⟨List.replicate 96 8, List.replicate 32 9, 4⟩]⟩,
     List.replicate 96 1, 2⟩ : SPSig).WF :=
